@@ -45,6 +45,7 @@ BB == BOOLEAN
 NSNone == {}
 NSAll == {"relay", "dial", "other"}
 NSRelay == {"relay"}
+NSOther == {"other"}
 NSRelayOther == {"relay", "other"}
 ENone == {}
 ERelay == {"relay"}
@@ -83,12 +84,12 @@ Vals == {0} \cup {RespV(c, a) : c \in MCCalls, a \in 1..2}
 Natural(c) == LET f == s[c].from  p == s[c].peer IN
                 IF s[c].cx = "canceled" THEN {"ctx", "ok"}
                 ELSE IF ~CanConnect(f, p) THEN (IF ~Connected(f, p) /\ ~Linked(f, p) THEN {"nolink"} ELSE {"gated"})
-                ELSE IF FirstSupported(s[c].protos, IF Srv(p).on THEN Srv(p).protos ELSE {}) = "-" THEN {"unsupp"} ELSE {"ok"}
+                ELSE IF Common(c) = {} THEN {"unsupp"} ELSE {"ok"}
 Env ==
   \/ \E c \in MCCalls :
        \/ (Serial => EarlierOver(c)) /\ \E x \in Args(c) : Call(c, x)
-       \/ \E w \in Natural(c) : NSRet(c, IF w = "ok" THEN "ok" ELSE "other", w)
-       \/ \E r \in NSOut : NSRet(c, r, "inj")
+       \/ \E w \in Natural(c) : \E pr \in (IF w = "ok" THEN Common(c) ELSE {"-"}) : NSRet(c, IF w = "ok" THEN "ok" ELSE "other", w, pr)
+       \/ \E r \in NSOut : NSRet(c, r, "inj", "-")
        \/ \E e \in WErrs : WErr(c, e)
        \/ \E r \in CWRes : CloseW(c, r)
        \/ \E r \in CRRes : \E v \in Vals : (r # "ok" => v = 0) /\ CRead(c, r, v)
@@ -109,7 +110,7 @@ MCSpec == MCInit /\ [][MCNext]_vars
    returns, every read ends -- with data or an error, if only the deadline's --, every handler returns) every call
    returns, every goroutine of SendAsync ends and every session closes its stream.  Checked without a clock
    (RetryDelay = Sto = Rto = 0: every timer is due at once). *)
-EnvProgress(c) == \/ \E w \in Natural(c) : NSRet(c, IF w = "ok" THEN "ok" ELSE "other", w)
+EnvProgress(c) == \/ \E w \in Natural(c) : \E pr \in (IF w = "ok" THEN Common(c) ELSE {"-"}) : NSRet(c, IF w = "ok" THEN "ok" ELSE "other", w, pr)
                   \/ \E r \in CRRes : \E v \in Vals : (r # "ok" => v = 0) /\ CRead(c, r, v)
                   \/ \E r \in CWRes : CloseW(c, r)
 SesProgress(c, a) == \/ SAcc(c, a) \/ \E k \in SRErrs : SReadErr(c, a, k) \/ \E r \in HRes : HEnd(c, a, r, RespV(c, a))
